@@ -36,6 +36,8 @@ NClose(a, b, rel) == CHOOSE x \in BOOLEAN : TRUE
 NSumSeq(q)  == CHOOSE x \in STRING : TRUE      \* left-to-right sum of a sequence of numbers
 NMeanSeq(q) == CHOOSE x \in STRING : TRUE      \* arithmetic mean of a non-empty sequence
 NPopStdSeq(q) == CHOOSE x \in STRING : TRUE    \* population standard deviation of a non-empty sequence
+NPrefixSeq(q) == CHOOSE x \in Seq(STRING) : TRUE \* sequence of prefix sums, same length as q
+NPopVarSeq(q) == CHOOSE x \in STRING : TRUE    \* population variance of a non-empty sequence
 NSign(a)    == CHOOSE x \in {-1, 0, 1, 2} : TRUE \* exact sign; 2 for NaN
 
 (* outcome sets: which truth values of the comparison must a specification admit *)
